@@ -12,17 +12,36 @@ use crate::engine::{guarded, pattern, Limits, Report, Tier, Violation};
 use crate::exch::{ExchCfg, Gate, Menu, ServerMsg};
 use crate::exch_run::{replay_exchange, run_exchanges};
 
-pub const RULE: &str = "E1: for every N in 0..=8 (Content-Length: N, HTTP/1.0 and 1.1, body followed by 3 bytes of a next response) the complete graph over (remaining, consumed, arrived) with 1-byte arrivals and read buffers 0..=N+2; close-delimited streams of 0..=6 bytes with buffers 0..=4, readiness required in every state and the must-close verdict in both successor states. E2: every N in 0..=70000 on a fresh flow: single reads with window length {0,1,N-1,N,N+1,N+3} x buffer {0,1,N-1,N,N+1}, two-step reads through the state 'one byte left', and all steps again in the completed state; large N {2^32-1,2^32+1,2^63,u64::MAX}. distinct = distinct (N class, window class, buffer class, moved class) cells";
+pub const RULE: &str = "E1: for every N in 0..=8 (Content-Length: N; response HTTP/1.0 and 1.1; also with Connection: close on either side, an HTTP/1.0 request, and an ignored Transfer-Encoding on an HTTP/1.0 response; body followed by 3 bytes of a next response) the complete graph over (remaining, consumed, arrived) with 1-byte arrivals and read buffers 0..=N+2; close-delimited streams of 0..=6 bytes with buffers 0..=4, readiness required in every state and the must-close verdict in both successor states. E2: every N in 0..=70000 on a fresh flow: single reads with window length {0,1,N-1,N,N+1,N+3} x buffer {0,1,N-1,N,N+1}, two-step reads through the state 'one byte left', and all steps again in the completed state; large N {2^32-1,2^32+1,2^63,u64::MAX}. distinct = distinct (N class, window class, buffer class, moved class) cells";
 
 fn graph_cfgs() -> Vec<Arc<ExchCfg>> {
     let mut out = Vec::new();
-    for ver in ["1.1", "1.0"] {
+    // the length rule must not depend on anything else in the exchange: response / request versions,
+    // Connection: close on either side, a Transfer-Encoding header on an HTTP/1.0 response (ignored there)
+    let variants: [(&str, &str, &[(&str, &str)], bool); 6] = [
+        ("1.1", "1.1", &[], false),
+        ("1.0", "1.1", &[], false),
+        ("1.1", "1.1", &[("Connection", "close")], false),
+        ("1.1", "1.0", &[], false),
+        ("1.1", "1.1", &[], true),
+        ("1.0", "1.1", &[("Transfer-Encoding", "chunked")], false),
+    ];
+    for (ver, rver, extra, req_close) in variants {
         for n in 0..=8usize {
-            let msg = RespMsg { version: ver.into(), status: 200, reason: "OK".into(), fields: vec![("Content-Length".into(), n.to_string().into_bytes())], body: if n > 0 { RespBody::Raw(pattern(n)) } else { RespBody::None } };
+            if !(extra.is_empty() && !req_close && rver == "1.1") && n > 4 {
+                continue;
+            }
+            let mut fields: Vec<(String, Vec<u8>)> = extra.iter().map(|(k, v)| (k.to_string(), v.as_bytes().to_vec())).collect();
+            fields.push(("Content-Length".into(), n.to_string().into_bytes()));
+            let msg = RespMsg { version: ver.into(), status: 200, reason: "OK".into(), fields, body: if n > 0 { RespBody::Raw(pattern(n)) } else { RespBody::None } };
             let mut menu = Menu::default_large();
             menu.arrive = vec![1];
             menu.read_bufs = (0..=n + 2).collect();
-            let mut cfg = ExchCfg::new("C08", ReqCfg::new("GET", "1.1", "http://a.test/"), vec![], vec![ServerMsg { msg, gate: Gate::AfterBody }], b"HTT".to_vec(), menu).expect("cfg");
+            let mut rq = ReqCfg::new("GET", rver, "http://a.test/");
+            if req_close {
+                rq = rq.orig("connection", "close");
+            }
+            let mut cfg = ExchCfg::new("C08", rq, vec![], vec![ServerMsg { msg, gate: Gate::AfterBody }], b"HTT".to_vec(), menu).expect("cfg");
             cfg.scope = scope;
             if n > 0 {
                 cfg.start_at = Some("RecvBody");
@@ -31,10 +50,13 @@ fn graph_cfgs() -> Vec<Arc<ExchCfg>> {
             }
             out.push(Arc::new(cfg));
         }
-        // close-delimited
+    }
+    for ver in ["1.1", "1.0", "1.0-te"] {
+        // close-delimited (also: HTTP/1.0 response whose Transfer-Encoding: chunked does not count)
         for len in 0..=6usize {
             for status in [200u16, 404] {
-                let msg = RespMsg { version: ver.into(), status, reason: "OK".into(), fields: vec![], body: RespBody::Raw(pattern(len)) };
+                let (ver, fields): (&str, Vec<(String, Vec<u8>)>) = if ver == "1.0-te" { ("1.0", vec![("Transfer-Encoding".into(), b"chunked".to_vec())]) } else { (ver, vec![]) };
+                let msg = RespMsg { version: ver.into(), status, reason: "OK".into(), fields, body: RespBody::Raw(pattern(len)) };
                 let mut menu = Menu::default_large();
                 menu.arrive = vec![1];
                 menu.read_bufs = (0..=4).collect();
